@@ -367,13 +367,15 @@ func driverFill(c *Ctx) {
 		sigma["unknown_key"] = 5
 		sigma["Zz9"] = "text"
 		// ... also keys of the shape of a repeat marker that the template does not have, with values of any kind
-		switch g.pick(4) {
+		switch g.pick(5) {
 		case 0:
 			sigma["..."] = "text"
 		case 1:
 			sigma["...[7]"] = ast.NewBooleanNode(true)
 		case 2:
 			sigma["...[0]"] = 1.5
+		case 3:
+			sigma["...[9]"] = -1
 		}
 		keys := sortedKeys(sigma)
 		// abstract sigma with the variable's format
@@ -561,6 +563,9 @@ func driverFillEll(c *Ctx) {
 		if g.pick(3) == 0 {
 			// a key of the shape of a repeat marker that the template does not have is an unknown key like any other
 			all["...[42]"], values["...[41]"] = "text", 2.5
+			if g.pick(2) == 0 {
+				all["...[42]"] = -3
+			}
 		}
 		ev["once"], _ = outcomeOf(func() ast.ItemNode { return t.FillVariables(all) })
 		ev["steps"], _ = outcomeOf(func() ast.ItemNode { return t.FillVariables(counts).FillVariables(values) })
@@ -716,12 +721,29 @@ func driverCtor(c *Ctx) {
 		args := []interface{}{arg}
 		pre := 0
 		g := c.gen(idx)
-		if g.pick(2) == 0 { // the value in second position, behind an in-domain value
+		var after interface{}
+		switch g.pick(3) {
+		case 0: // the value in second position, behind an in-domain value
 			args = []interface{}{g.value(f), arg}
 			pre = 1
+		case 1: // ... in first position, in front of an in-domain value of the narrowest Go type the format takes
+			switch {
+			case f == "B":
+				after = 1
+			case f[0] == 'I':
+				after = int8(-1)
+			case f[0] == 'U':
+				after = uint8(1)
+			default:
+				after = float32(0.5)
+			}
+			args = []interface{}{arg, after}
 		}
 		res, _ := outcomeOf(func() ast.ItemNode { return (&GItem{F: f, Vals: args}).Build() })
-		ev := J{"ev": "ctor", "f": f, "go": goTypeName(arg), "arg": valueJ(f, arg), "pos": pre, "res": res}
+		ev := J{"ev": "ctor", "f": f, "go": goTypeName(arg), "arg": valueJ(f, arg), "pos": pre, "res": res, "after": J{"none": true}}
+		if after != nil {
+			ev["after"] = valueJ(f, after)
+		}
 		if pre == 1 {
 			ev["first"] = valueJ(f, args[0])
 		} else {
@@ -732,6 +754,13 @@ func driverCtor(c *Ctx) {
 			return (&GItem{F: f, Vals: []interface{}{"x"}}).Build().FillVariables(map[string]interface{}{"x": arg})
 		})
 		ev["fillres"] = fres
+		// ... also when a second variable is filled in the same call with a value of a narrow Go type
+		if after != nil {
+			fres2, _ := outcomeOf(func() ast.ItemNode {
+				return (&GItem{F: f, Vals: []interface{}{"x", "y"}}).Build().FillVariables(map[string]interface{}{"x": arg, "y": after})
+			})
+			ev["fillres2"] = fres2
+		}
 		for k, v := range extra {
 			ev[k] = v
 		}
@@ -852,6 +881,18 @@ func driverCtor(c *Ctx) {
 						panic("for a binary item 0b... is a literal, not a name: not tried")
 					}
 					return ast.NewBinaryNode(n, 7, "zz9").FillVariables(map[string]interface{}{"zz9": n})
+				},
+				"dupsamewide": func() ast.ItemNode { // ... in a node of more than 64 values, for a binary and an unsigned item
+					if strings.HasPrefix(n, "0b") {
+						panic("for a binary item 0b... is a literal, not a name: not tried")
+					}
+					vals := []interface{}{n}
+					for k := 0; k < 70; k++ {
+						vals = append(vals, k)
+					}
+					vals = append(vals, "zz9")
+					b := ast.NewBinaryNode(vals...).FillVariables(map[string]interface{}{"zz9": n})
+					return ast.NewListNode(b, ast.NewUintNode(2, vals...).FillVariables(map[string]interface{}{"zz9": n}))
 				},
 				"dupsameT": func() ast.ItemNode {
 					return ast.NewBooleanNode(n, "zz9").FillVariables(map[string]interface{}{"zz9": n})
